@@ -240,6 +240,34 @@ fn c02_extra(c: &Case, _xot: &Xot, _root: xot::Node, tt: &str, out: &mut Out, st
             }
         }
     }
+    // single-byte encodings whose bytes happen to be valid UTF-8: every non-ASCII character of the body is replaced by a pair
+    // such as U+00C3 U+00A9 (bytes C3 A9 in ISO-8859-1) or U+00C2 U+20AC (bytes C2 80 in windows-1252), so that the whole
+    // byte stream decodes as UTF-8 too — to something else.  The expected tree is what the string entry point builds from
+    // the same text (the declared encoding decides, not what the bytes look like).
+    if !has_decl {
+        fn second_latin1(k: u32) -> char { char::from_u32(0xA0 + k % 0x20).unwrap() }
+        fn second_cp1252(_k: u32) -> char { '\u{20AC}' }
+        let kinds: [(&str, fn(u32) -> char, Option<u8>); 2] = [("ISO-8859-1", second_latin1, None), ("windows-1252", second_cp1252, Some(0x80u8))];
+        for (label, second, second_byte) in kinds {
+            let look: String = body.chars().map(|ch| if (ch as u32) < 0x80 { ch.to_string() } else { format!("{}{}", if second_byte.is_some() { '\u{C2}' } else { '\u{C3}' }, second(ch as u32)) }).collect();
+            if look == body { continue; }
+            let mut bytes: Vec<u8> = format!("<?xml version=\"1.0\" encoding=\"{}\"?>", label).into_bytes();
+            bytes.extend(look.chars().map(|ch| if ch == '\u{20AC}' { second_byte.unwrap_or(b'?') } else { ch as u32 as u8 }));
+            let mut xs = Xot::new();
+            let want = match guard(|| xs.parse(&look)) { Ok(Ok(r)) => tree_text(&xs, r), _ => continue };
+            let mut xb = Xot::new();
+            match guard(|| xb.parse_bytes(&bytes)) {
+                Ok(Ok(root)) => {
+                    stats.bump(&format!("c02.bytes.utf8-lookalike.{}", label));
+                    if tree_text(&xb, root) != want {
+                        out.fail(&c.id, &format!("bytes-differ:{}-utf8-lookalike", label), &format!("parse_bytes of {} bytes that are also valid UTF-8 builds {} instead of {}", label, tree_text(&xb, root), want));
+                    }
+                }
+                Ok(Err(e)) => out.fail(&c.id, &format!("bytes-differ:{}-utf8-lookalike", label), &format!("parse_bytes of the {} encoding is rejected: {}", label, error_text(&e))),
+                Err(()) => out.fail(&c.id, "parse-panic", &format!("parse_bytes of the {} encoding panicked", label)),
+            }
+        }
+    }
     for (label, bytes) in variants {
         let mut x = Xot::new();
         match guard(|| x.parse_bytes(&bytes)) {
